@@ -269,6 +269,7 @@ def check_len_agreement(crate, rep, cfg):
             n += 1
             key = "C14.LEN:%s:resolve_index#%d" % (crate.root_of(b).path, k)
             lens = tr.operand(t["args"][1])
+            closure_use = False
             ok = bool(lens) and all(l.kind == "call" and l.detail[0].endswith("::len") and not l.projs for l in lens)
             why = "the length argument is not the len() of a sequence"
             if ok:
@@ -288,9 +289,36 @@ def check_len_agreement(crate, rep, cfg):
                         if il and any(l.kind == "call" and l.detail[2] == bb for l in il):
                             uses.append((b2, t2))
                 if ok and not uses:
+                    # the index may be consumed inside a closure handed to an Option adapter on the result: `idx.map_or_else(.., |i| seq[i].clone())`
+                    for b2, t2 in b.calls():
+                        if not (t2["args"] and any(l.kind == "call" and l.detail[2] == bb for l in tr.operand(t2["args"][0]))):
+                            continue
+                        for a2 in t2["args"][1:]:
+                            for l in tr.operand(a2):
+                                if l.kind == "agg" and l.detail[0] == "closure" or (l.kind == "agg" and len(l.detail) >= 2 and str(l.detail[0]) == "closure"):
+                                    st2 = b.blocks[l.detail[-2]]["s"][l.detail[-1]]
+                                    cb_ = crate.bodies.get(st2["rv"].get("def"))
+                                    if cb_ is None:
+                                        continue
+                                    ctr = Tracer(cb_)
+                                    for b3, t3 in cb_.calls():
+                                        if callee_def(t3) in ("std::ops::Index::index", "std::ops::IndexMut::index_mut") and len(t3["args"]) > 1:
+                                            il = ctr.operand(t3["args"][1])
+                                            rl = ctr.operand(t3["args"][0])
+                                            if il and all(x.kind == "param" and x.detail == 2 for x in il) and rl and all(x.kind == "param" and x.detail == 1 for x in rl):
+                                                # which captured value: the upvar index is the first field projection of the closure environment
+                                                ups = {int(p[1:]) for x in rl for p in x.projs if p.startswith(".") and p[1:].isdigit()}
+                                                if len(ups) == 1:
+                                                    cap = st2["rv"]["ops"][next(iter(ups))]
+                                                    if origin(tr.operand(cap)) == recv:
+                                                        uses.append((b2, t2))
+                                                        closure_use = True
+                if ok and not uses:
                     ok = False
                     why = "the resolved index is not used to index a sequence here"
                 for b2, t2 in uses:
+                    if closure_use:
+                        continue
                     if ok and origin(tr.operand(t2["args"][0])) != recv:
                         ok = False
                         why = "the sequence indexed at %s is not the one whose length was passed" % b.where(b2)
